@@ -34,6 +34,7 @@ class Ctx:
         self.violations = []
         self.known_hits = {}
         self.drift = []
+        self.observations = []
         self.level = "model_checking"
         self.cov = {"states": 0, "transitions": 0, "traces_validated_against_impl": 0, "samples": [],
                     "evaluations": 0, "distinct_nontrivial": 0, "rule": "", "tlc_runs": []}
@@ -83,6 +84,11 @@ class Ctx:
             self.violations.append({"key": key, "what": what, "scenario": scenario})
         else:
             self.violations.append(None)
+
+    def observe(self, what):
+        """behaviour outside the given properties that the growing specification covers: reported, never failed"""
+        self.observations.append(what)
+        print(f"OBSERVATION property={self.pid} {what}", flush=True)
 
     def spec_drift(self, what):
         self.drift.append(what)
@@ -154,6 +160,7 @@ def main():
         cov["distinct_nontrivial"] = max(cov["distinct_nontrivial"], len(ctx._distinct))
         cov["known_findings_hit"] = {k: h["n"] for k, h in ctx.known_hits.items()}
         cov["spec_drift"] = ctx.drift
+        cov["observations_outside_the_properties"] = ctx.observations
         ev = {"property_id": pid, "tier": a.tier, "seed": a.seed, "level": ctx.level, "coverage": cov,
               "assumptions": ctx.assumptions, "wall_s": round(time.time() - ctx.t0, 2), "violations": nviol,
               "status": {0: "held", 1: "violation", 2: "machinery-failure"}[rc]}
